@@ -507,7 +507,7 @@ class StartStageHandler(
         # Now we have exclusive ownership - safe to do expensive planning
         had_tasks_before_planning = bool(stage.tasks)
         try:
-            self._plan_stage(stage)
+            planned_before_stages = self._plan_stage(stage)
         except Exception as e:
             logger.error(
                 "Failed to plan stage %s (%s) in execution %s: %s",
@@ -519,7 +519,7 @@ class StartStageHandler(
             raise
 
         # Collect messages to push BEFORE starting the transaction
-        messages_to_push = self._collect_start_messages(stage, message)
+        messages_to_push = self._collect_start_messages(stage, message, planned_before_stages)
 
         # Atomic: store planned stage + push all start messages together.
         # We own the claim, so the only possible concurrent writers are upstream
@@ -532,6 +532,8 @@ class StartStageHandler(
         for attempt in range(5):
             try:
                 with self.repository.transaction(self.queue) as txn:
+                    for planned in planned_before_stages:
+                        txn.store_stage(planned)
                     txn.store_stage(stage)
 
                     # Message deduplication
